@@ -6,6 +6,7 @@ import (
 	"fmt"
 	"net/http"
 	"strings"
+	"sync"
 	"time"
 
 	"github.com/IrineSistiana/mosproxy/verif/internal/dnsclient"
@@ -479,4 +480,84 @@ func c15E2EGlobal(c *Ctx) {
 	}
 	c.Ev.Distinct("e2e", "global-limit-then-quiet-subnet-served")
 	c.Ev.Count("e2e_global_victim_served_after_flood", 1)
+}
+
+// c15E2ENoAddress: requests whose client address is unknown (the HTTP listeners have a
+// client_addr_header configured, the request comes without it) belong to nobody's budget. A subnet
+// that has used a fraction of its bucket (16 queries, at most 64 of 100 tokens), then sixty header-less DoH requests, then the
+// subnet again: its own queries are served - what anonymous requests cost is not charged to it.
+func c15E2ENoAddress(c *Ctx) {
+	const rate, burst = 2, 100
+	b, err := NewBed(c, "limiter-noaddr", BedOpts{Upstreams: []string{"pipe"}, Listeners: []string{"udp", "tcp", "http", "https"}, ClientAddrHeader: "X-Client-Addr",
+		Limiter: fmt.Sprintf("  client:\n    limit: %d\n    burst: %d\n", rate, burst)})
+	if err != nil {
+		c.startFailure(err, "c15-e2e-noaddr")
+		return
+	}
+	defer b.Stop()
+	const victim = "127.88.8.1"
+	served := func(x xResult) (ok, refused bool) {
+		m := new(dns.Msg)
+		if x.Err != nil || (x.Status != 0 && x.Status != 200) || m.Unpack(x.Resp) != nil {
+			return false, x.Status == 503
+		}
+		return m.Rcode == dns.RcodeSuccess, m.Rcode == dns.RcodeRefused
+	}
+	// sixteen queries of the victim at once over udp (sixteen request contexts have carried its address)
+	var wg sync.WaitGroup
+	var mu sync.Mutex
+	admitted := 0
+	for i := 0; i < 16; i++ {
+		wg.Add(1)
+		go func(i int) {
+			defer wg.Done()
+			x := b.Exchange("udp", mkQuery(uint16(i+1), fmt.Sprintf("ok-na-v%d.pipe.test.", i), dns.TypeA, dns.ClassINET, false), xOpts{LocalIP: victim, Timeout: 4 * time.Second})
+			if ok, _ := served(x); ok {
+				mu.Lock()
+				admitted++
+				mu.Unlock()
+			}
+		}(i)
+	}
+	wg.Wait()
+	c.Ev.Eval(16)
+	// the victim has spent at most 16 x 4 = 64 of its 100 tokens (udp query 1 + upstream 3)
+	t0 := time.Now()
+	anon := 0
+	// (two long-lived client connections: the accept of a connection is charged to the socket's peer)
+	hcs := []*dnsclient.DoHClient{dnsclient.NewDoH("http://"+b.L["http"]+"/dns-query", nil, "h1", ""), dnsclient.NewDoH("https://"+b.L["https"]+"/dns-query", b.ProxyTLS, "h2", "")}
+	defer hcs[0].Close()
+	defer hcs[1].Close()
+	for round := 0; round < 10; round++ {
+		for k := 0; k < 6; k++ {
+			wg.Add(1)
+			go func(round, k int) {
+				defer wg.Done()
+				r := hcs[k%2].Do("POST", mkQuery(uint16(100+round*6+k), fmt.Sprintf("ok-na-anon%d-%d.pipe.test.", round, k), dns.TypeA, dns.ClassINET, false), nil) // no client address header
+				if ok, _ := served(xResult{Resp: r.Body, Status: r.Status, Err: r.Err}); ok {
+					mu.Lock()
+					anon++
+					mu.Unlock()
+				}
+			}(round, k)
+		}
+		wg.Wait()
+	}
+	c.Ev.Eval(60)
+	c.Ev.Count("e2e_noaddr_anonymous_requests_served", int64(anon))
+	refusedN := 0
+	for i := 0; i < 2; i++ {
+		x := b.Exchange("udp", mkQuery(uint16(900+i), fmt.Sprintf("ok-na-again%d.pipe.test.", i), dns.TypeA, dns.ClassINET, false), xOpts{LocalIP: victim, Timeout: 4 * time.Second})
+		c.Ev.Eval(1)
+		if _, refused := served(x); refused {
+			refusedN++
+		}
+	}
+	if refusedN >= 1 { // bucket arithmetic, no timing involved: at least 36 of its 100 tokens were left
+		c.Violation("e2e:isolation:charged-for-anonymous-requests", fmt.Sprintf("limit %d burst %d: subnet of %s had %d queries admitted, then %d DoH requests without the configured client address header were served over %.1f s; afterwards %d of its 2 queries (cost 1-4 each; at most 64 of its 100 tokens had been used, %d more refilled meanwhile) were REFUSED: requests of unknown origin were charged to it", rate, burst, victim, admitted, anon, time.Since(t0).Seconds(), refusedN, int(rate*time.Since(t0).Seconds())),
+			map[string]any{"fn": "c15E2ENoAddress", "victim_admitted": admitted, "anonymous_served": anon})
+		return
+	}
+	c.Ev.Distinct("e2e", "anonymous-requests-not-charged", refusedN)
+	c.Ev.Count("e2e_noaddr_victim_served_after_anonymous_requests", int64(2-refusedN))
 }
